@@ -5,7 +5,7 @@ from .. import coqterm as ct
 from .. import gen_tree as gt
 from ..core import Prop
 
-VALUES = ["", "0", "1", "5", "-3", "+7", "007", "abc", "1.5", "true", "False", "x y", "no"]
+VALUES = ["", "0", "1", "5", "-3", "+7", "007", "abc", "1.5", "true", "false", "False", "x y", "no", "off", "00", "None", "-", "0.0"]
 
 
 class C16(Prop):
